@@ -24,4 +24,4 @@ func disabledFeatures() map[string]bool {
 	return d
 }
 
-var gatedOff = []string{"tag-switch-nonlast-default-fallthrough", "label-in-switch-clause", "comma-ok-map", "addr", "defer-arg-variable"}
+var gatedOff = []string{"tag-switch-nonlast-default-fallthrough", "label-in-switch-clause"}
